@@ -240,9 +240,32 @@ func VerifStreamScriptMain(args []string) int {
 		}
 		fmt.Fprintf(ow, "seq %d\n", s)
 		fmt.Fprintln(iw, "seq")
+		// directed class (every third sequence): ONE submit of more non-empty output nodes than the iovec barrier holds
+		// (barriercap = 32 vectors per GetBytes/sendmsg): 30..44 pieces of 4..8 KiB, each a node of its own, then rounds
+		// in which the kernel takes everything offered / an arbitrary part
+		var directed []string
+		if s%3 == 1 {
+			for j, k := 0, 30+r.Intn(15); j < k; j++ {
+				n := 4096
+				if r.Intn(2) == 0 {
+					n += r.Intn(4097)
+				}
+				directed = append(directed, fmt.Sprintf("%s %d %d", []string{"wmal", "wbin"}[r.Intn(2)], n, r.Intn(1000)))
+			}
+			directed = append(directed, "wsubmit", fmt.Sprintf("out %d", []int{1 << 30, 1 << 30, 31 * 4096, 1 + r.Intn(300000)}[r.Intn(4)]), "out 1073741824")
+		}
 		for i := 0; i < *nops; i++ {
 			c := v.c
 			var line string
+			if i < len(directed) {
+				op, rep := v.exec(strings.Fields(directed[i]))
+				fmt.Fprintln(ow, op)
+				fmt.Fprintln(iw, rep)
+				if rep == "panic" {
+					break
+				}
+				continue
+			}
 			sz := []int{1, 2, 100, 1000, 4095, 4096, 4097, 8192, 9000, 1 + r.Intn(20000)}[r.Intn(10)]
 			switch k := r.Intn(14); {
 			case k < 2:
